@@ -44,7 +44,7 @@ CLAIMED = {
               "scope stack or scope only under a size comparison; the hinted find validates size and key; and the global/"
               "function lookup must be dominated by the scan of the local scope stack; on the cached-local path a value is "
               "returned only from the exact remembered slot or from a complete re-resolution, and only after the nearer "
-              "scopes were checked for the name. Two obligations fail on the current tree and are listed as known findings "
+              "scopes were checked for the name. the function lookup is reached only with the miss of the global-object search for this name established on the path (else the global, else the function). Two obligations fail on the current tree and are listed as known findings "
               "with replays (a node cached as 'not a local' ignores a local introduced later by eval(); a remembered outer "
               "slot wins over an inner variable of the same name introduced later) - both are the same design limit of the "
               "per-node cache. Not decided: full equivalence with caching disabled on generated programs."),
@@ -64,7 +64,7 @@ CLAIMED = {
               "order from 0 and an exact candidate is entered without a conversion filter (the 'exact match is chosen' "
               "clause); the untyped data pointer of a box is cast to a typed pointer only in the verified cast kernel, in the "
               "arithmetic kernel, or under a dominating test that the box holds exactly that type (a base-class conversion "
-              "adjusts the pointer, never reinterprets it). Not decided: ranking among candidates of equal rank; a user "
+              "adjusts the pointer, never reinterprets it). dispatch::functor<Sig> builds the std::function only after the test that some candidate has the arity of Sig (or is variadic), whose failing arm throws bad_boxed_cast. Not decided: ranking among candidates of equal rank; a user "
               "function that itself throws bad_boxed_cast makes dispatch try the next overload (noted in DESIGN.md)."),
         technique="per-instantiation structural rules over the call/cast kernels (template arguments compared with signature types), who-may-call",
         ref="DESIGN.md section 4 C06"),
@@ -133,7 +133,7 @@ CLAIMED = {
               "literal type on all well-formed (suffix, base, magnitude-class) cases for each of the four (base, prefixed) argument "
               "pairs with which Num() actually calls it (decimal, octal, hex, binary); float suffixes select float/long "
               "double/double; Num() maps 0x/0b/leading 0 to bases 16/2/8; (5) \\u/\\U escapes are encoded with the UTF-8 table "
-              "(thresholds, lead bytes, shifts, masks and byte counts extracted per range arm). Not decided: float accuracy in "
+              "(thresholds, lead bytes, shifts, masks and byte counts extracted per range arm). (6) the octal and hex digit classes of the escape decoder are exact: the class predicates are evaluated over all 256 character values and compared with [0-7] and [0-9a-fA-F]. Not decided: float accuracy in "
               "ulps, the digit arithmetic of std::stoll/parse_num."),
         technique="hash-use inventory + guard rule, table extraction, typestate by abstract interpretation, symbolic evaluation of the typing ladder on all abstract cases",
         ref="DESIGN.md section 4 C16"),
@@ -190,7 +190,7 @@ CLAIMED = {
               "library is inventoried against a three-entry allow-list; the non-const verify_type overloads require "
               "!is_const(); in Equation/Prefix the const test dominates every mutating continuation and every "
               "Boxed_Value::assign has a receiver proven undefined or non-const; all Constant nodes built by parser and "
-              "optimizer originate from const_var/buildInt/buildFloat/the arithmetic kernel; const return forms, const_var "
+              "optimizer originate from const_var/buildInt/buildFloat/the arithmetic kernel; the arithmetic kernel itself (Boxed_Number::go/oper, all instantiations) hands out a fresh result only as const_var(..), otherwise the left operand or its own visitor's result; const return forms, const_var "
               "and add_global_const box const-qualified referents; data members of const objects are returned const; the "
               "obligation that a `const Boxed_Value &` result (element of a const Vector/Map) reaches the script as a const "
               "value fails on the current tree and is a listed known finding with replay (constness of a boxed container "
@@ -207,7 +207,7 @@ CLAIMED = {
               "evaluation whose element values all pass through clone_if_necessary; `var x = e` and first assignment clone; "
               "no Constant node holds a value whose type contains Boxed_Value handles (constness of a boxed container is "
               "shallow, its elements would be shared by every evaluation). "
-              "Not decided: equality of results of repeated calls on generated functions (follows from the above plus C07)."),
+              "The constants' origin rule (C07 R7.8, including the arithmetic kernel through which the optimizer folds literals: fresh results only as const_var, never mutable or marked as a temporary a declaration may adopt) is re-decided and reported here as R8.5. Not decided: equality of results of repeated calls on generated functions (follows from the above plus C07)."),
         technique="class-hierarchy-wide const/mutable inventory, who-may-write rule over resolved accesses, def-use checks",
         ref="DESIGN.md section 4 C08"),
     "C10": dict(
@@ -259,7 +259,7 @@ CLAIMED = {
               "statement); (5) no pass reorders children; (6) Dead_Code drops only node kinds whose evaluator can neither "
               "throw nor have an effect (exception flow over those evaluators); (7) `if (constant)` keeps the arm the "
               "evaluator would run and the compiled for-loop implements exactly the comparison and step its pattern accepts, "
-              "from the pattern's own constants."),
+              "from the pattern's own constants; (8) a node is replaced by a constant only when every child the evaluator would have evaluated is proven constant by the facts that dominate the replacement (a logical operator with one deciding constant operand is not folded)."),
         technique="referent classification (escape rule), cross-module table agreement between optimizer predicate and evaluator bodies, interprocedural exception flow with dominating-fact call-site filters",
         ref="DESIGN.md section 4 C02"),
     "C03": dict(
@@ -275,7 +275,7 @@ CLAIMED = {
               "for, ranged-for, switch, case, default, try and class evaluate their children under their own scope guard and "
               "functions run in a new frame; assignment evaluates the right operand first, first assignment and `var x = e` "
               "store clone_if_necessary(e), `:=` rebinds without copying; lambda captures are evaluated at creation and owned "
-              "by the callable. Not decided: agreement with a reference interpreter on generated programs; values."),
+              "by the callable. clone_if_necessary clears the is-a-temporary mark on the path that does not copy, so the next declaration or assignment that receives the stored value does copy it; overload ordering (function_less_than) evaluated as a decision table on 12 scenarios: guarded before unguarded script functions, typed C++ before script functions, non-const before const, specific before catch-all. a script function's body is entered only under a passed arity/type match and a guard that returned true on the same arguments (guard_error otherwise); Param_Types::match interpreted on one parameter over 12 combinations of its tests accepts exactly untyped, script object of the named class, exact C++ type, convertible C++ type (marked for conversion). script classes: method and attribute wrappers call their body only for objects of their class (type-name match interpreted as a table), `def C::C` builds the constructor wrapper, which creates the object, passes it first followed by the arguments in order and returns it. Not decided: agreement with a reference interpreter on generated programs; values."),
         technique="table extraction (operator groups, precedence order, node kind per level, recursion level per operand) and shape rules over eval_internal bodies (conditional evaluation, handler placement, scope guards, evaluation order)",
         ref="DESIGN.md section 4 C03"),
     "C11": dict(
@@ -291,7 +291,7 @@ CLAIMED = {
               "finding with replay; (4) every call node that opens a call frame "
               "saves its evaluated arguments before dispatch (two documented exemptions); (5) Object_Data::get: owning forms "
               "store a shared_ptr and are not references, non-owning forms are marked as references, the cached pointer "
-              "comes from the stored object. Not decided: destruction counts/times on generated programs; references that "
+              "comes from the stored object. (6) the releasing side: every scope/frame opened is closed on every exit (the C09 rules R9.1-R9.3 re-run and reported here: an unclosed scope keeps its locals alive, a double close releases the caller's); (7) top-level statements are evaluated inside a call frame so that saved arguments are not released while the statement consuming a reference result is still running - this obligation fails on the current tree and is a listed known finding with a valgrind replay (`var c = (a + b)[5]` at top level). (8) the evaluator's scope guard attaches pending conversion temporaries to the current saved-argument list before it pushes a new one, so a converted argument lives for its C++ call also when that call runs a script callback; (9) the is-a-temporary mark (which lets a declaration adopt a box without copying) is put only on boxes that own their object - fails for const-reference results of C++ functions on the current tree, listed known finding with replay. Not decided: destruction counts/times on generated programs; references that "
               "host-registered C++ functions return into host-owned objects; the range()/front() route of ranged-for."),
         technique="referent classification of non-owning boxes (intraprocedural + one call level), ownership rules, sibling agreement, must-precede and guard rules, overload table check",
         ref="DESIGN.md section 4 C11"),
@@ -304,7 +304,7 @@ CLAIMED = {
               "moved, inner nodes start at their first child's start (the cursor when they have none) and end at the cursor, "
               "all carry the file name installed before parsing; nodes synthesised by the optimizer take the location of the "
               "node they replace; Position::operator++ starts a new line at column 1 after a line feed and advances the "
-              "column otherwise, operator-- is its inverse, the cursor starts at 1:1. Not decided: numeric agreement of every "
+              "column otherwise, operator-- is its inverse, the cursor starts at 1:1. every node the optimizer builds carries the location of the node it replaces (location, text and children taken from the same node; folded constants from the pass's own node; compiled loops from their original node). Not decided: numeric agreement of every "
               "reported position with ground truth on generated programs."),
         technique="who-may-call + handler-shape rule, origin (def-use) rules for location arguments of every node construction, effect-table check of the cursor operators",
         ref="DESIGN.md section 4 C20"),
@@ -322,7 +322,7 @@ CLAIMED = {
               "(:=, &) is assigned, stepped, mutated through a member or handed to back_inserter/bind(push_back) outside the "
               "six functions whose contract is to mutate; no numeric parameter is compared with an unsigned size() (a negative "
               "count would wrap); on the C++ side Bidir_Range::pop_front/pop_back move only the "
-              "view's iterators. Not decided: results (counts, order of combination), behaviour of the C++ functions called."),
+              "view's iterators. Callback argument roles: every application of a callback parameter, direct or through another prelude function it is handed to, passes (element of input k / accumulator / result of another callback) in the same positions, compared with a reference table (foldl f(elem, acc); reduce f(acc, elem); zip_with f(x_i, y_i)). Not decided: results (counts, order of combination), behaviour of the C++ functions called."),
         technique="script-level lint: independent subset parser + abstract interpretation (element lower bounds, per-iteration counters) + alias-aware who-may-mutate rule; one supporting rule over the C++ view class",
         ref="DESIGN.md section 4 C17 and 8.5"),
 }
